@@ -373,13 +373,26 @@ def package_files(pkg, rng=None, expanded_p=0.25):
         if pkg.files:
             return {f"m{i}.yml": render([d for d in pkg.defs if d["name"] in names]) for i, names in enumerate(pkg.files)}
         return {"model.yml": render(pkg.defs)}
+    # pkg.documents = k: the definitions of every file are spread over YAML documents ('---'), a new document after every k-th definition
+    docs = getattr(pkg, "documents", None)
+
+    def join(defs):
+        parts = [def_yaml(d, rng, expanded_p) for d in defs]
+        if not docs:
+            return "\n".join(parts)
+        out = []
+        for i, part in enumerate(parts):
+            if i and i % docs == 0:
+                out.append("---")
+            out.append(part)
+        return "\n".join(out)
     if pkg.files:
         res = {}
         for i, names in enumerate(pkg.files):
             defs = [d for d in pkg.defs if d["name"] in names]
-            res[f"m{i}.yml"] = "\n".join(def_yaml(d, rng, expanded_p) for d in defs)
+            res[f"m{i}.yml"] = join(defs)
         return res
-    return {"model.yml": "\n".join(def_yaml(d, rng, expanded_p) for d in pkg.defs)}
+    return {"model.yml": join(pkg.defs)}
 
 
 # ----------------------------------------------------------------------------- resolution
@@ -1227,6 +1240,25 @@ def untagged_unions_package(namespace="Unt", small=False):
     return pkg
 
 
+def arrays_package(namespace="Arr"):
+    """multi-dimensional arrays of every element encoding (fixed-size scalars, variable-length integers, flat records) in every array form, as steps,
+    stream items and record fields: small enough for the quick tier"""
+    pkg = Package(namespace)
+    P = lambda n: ("prim", n)
+    pkg.defs.append({"kind": "record", "name": "Px", "tparams": [], "fields": [("r", P("uint8")), ("g", P("uint8"))]})
+    pkg.defs.append({"kind": "record", "name": "Holder", "tparams": [], "fields": [("a", ("arr", P("float32"), ("rank", 2, None))), ("b", ("arr", P("complexfloat64"), ("fixed", [2, 3], None))),
+                                                                                  ("c", ("arr", P("int32"), ("rank", 3, None))), ("n", P("int16"))]})
+    steps = []
+    for i, e in enumerate(["float32", "float64", "complexfloat32", "uint8", "int8", "int32", "uint64"]):
+        steps.append((f"r{i}", ("arr", P(e), ("rank", 2, None)), i % 2 == 0))
+        steps.append((f"f{i}", ("arr", P(e), ("fixed", [3, 2], None)), i % 2 == 1))
+    steps.append(("d0", ("arr", P("float64"), ("dyn",)), True))
+    steps.append(("px", ("arr", ("named", "Px", []), ("rank", 2, None)), True))
+    steps.append(("h", ("named", "Holder", []), True))
+    pkg.defs.append({"kind": "protocol", "name": "PArrays", "steps": steps})
+    return pkg
+
+
 def directed_package(namespace="Dir"):
     """A fixed package that systematically crosses type constructors with element types, so that
     coverage of the (constructor x primitive) matrix does not depend on luck."""
@@ -1257,6 +1289,9 @@ def directed_package(namespace="Dir"):
     pkg.defs.append({"kind": "record", "name": "Pair", "tparams": ["A", "B"],
                      "fields": [("first", ("tparam", "A")), ("second", ("tparam", "B"))]})
     pkg.defs.append({"kind": "alias", "name": "Img", "tparams": ["T"], "type": ("arr", ("tparam", "T"), ("dyn",))})
+    pkg.defs.append({"kind": "alias", "name": "StrKey", "tparams": [], "type": P("string")})
+    pkg.defs.append({"kind": "record", "name": "Lookup", "tparams": ["K", "V"], "fields": [("entries", ("map", ("tparam", "K"), ("tparam", "V"))), ("n", P("int32"))]})
+    pkg.defs.append({"kind": "alias", "name": "Dict", "tparams": ["K", "V"], "type": ("map", ("tparam", "K"), ("tparam", "V"))})
     pkg.defs.append({"kind": "alias", "name": "MaybeInt", "tparams": [], "type": ("opt", P("int32"))})
     pkg.defs.append({"kind": "alias", "name": "MaybeIntAgain", "tparams": [], "type": ("named", "MaybeInt", [])})
     pkg.defs.append({"kind": "alias", "name": "OptU", "tparams": [], "type": ("union", True, [(None, P("int32")), (None, P("string"))])})
@@ -1267,6 +1302,23 @@ def directed_package(namespace="Dir"):
                                 # optional of an alias that is itself optional: two presence flags on the wire
                                 ("g", ("opt", ("named", "MaybeInt", []))), ("h", ("vec", ("opt", ("named", "MaybeIntAgain", [])), None))]})
     pkg.defs += padding_defs()
+    # one alias per position that can hold a type, referenced from that position only (nothing else makes the schema, the dependency order or a
+    # back end's imports mention it)
+    only = {"Direct": "int16", "Optional": "string", "Vector": "float64", "Fixed": "uint8", "Key": "uint32", "KeyStr": "string", "Value": "float32", "Arr": "int16", "Dyn": "float32",
+            "Case": "string", "NCase": "uint64", "Arg": "int8", "Target": "uint64", "Step": "uint16", "Item": "int64"}
+    for nm, prim in only.items():
+        pkg.defs.append({"kind": "alias", "name": "Only" + nm, "tparams": [], "type": P(prim)})
+    O = lambda nm: ("named", "Only" + nm, [])
+    pkg.defs.append({"kind": "record", "name": "OnlyHolder", "tparams": ["T"], "fields": [("v", ("tparam", "T"))]})
+    pkg.defs.append({"kind": "alias", "name": "AliasOfOnly", "tparams": [], "type": ("vec", O("Target"), None)})
+    pkg.defs.append({"kind": "record", "name": "OnlyPositions", "tparams": [],
+                     "fields": [("direct", O("Direct")), ("optional", ("opt", O("Optional"))), ("vector", ("vec", O("Vector"), None)), ("fixedVector", ("vec", O("Fixed"), 3)),
+                                ("mapKey", ("map", O("Key"), P("int32"))), ("mapKeyStr", ("map", O("KeyStr"), P("float64"))), ("mapValue", ("map", P("string"), O("Value"))),
+                                ("arrayElem", ("arr", O("Arr"), ("fixed", [2], None))), ("dynArrayElem", ("arr", O("Dyn"), ("dyn",))),
+                                ("unionCase", ("union", False, [("ucA", P("int32")), ("ucB", O("Case"))])), ("nullableUnionCase", ("union", True, [("nuA", P("bool")), ("nuB", O("NCase"))])),
+                                ("genericArg", ("named", "OnlyHolder", [O("Arg")])), ("throughAlias", ("named", "AliasOfOnly", []))]})
+    pkg.defs.append({"kind": "protocol", "name": "POnly", "steps": [("all", ("named", "OnlyPositions", []), False), ("step", O("Step"), False), ("items", O("Item"), True),
+                                                                     ("more", ("named", "OnlyPositions", []), True)]})
     ts_elems = ["int8", "uint8", "float32", "float64", "complexfloat32", "complexfloat64", "bool"]
     steps = []
     for i, e in enumerate(ts_elems):
@@ -1289,6 +1341,9 @@ def directed_package(namespace="Dir"):
         ("frames", ("named", "Frame", []), True),
         ("images", ("named", "Img", [P("float64")]), True),
         ("pairs", ("named", "Pair", [("named", "Img", [P("uint8")]), ("vec", ("named", "Pix", []), None)]), True)]})
+    # streams whose items have a fixed-size encoding (scalars, flat records): the writers have raw-memory paths for batches of them
+    pkg.defs.append({"kind": "protocol", "name": "PFixedItems", "steps": [("pixs", ("named", "Pix", []), True), ("mixeds", ("named", "Mixed", []), True), ("floats", P("float32"), True),
+                                                                           ("doubles", P("float64"), True), ("bytes", P("uint8"), True), ("n", P("int32"), False)]})
     steps = [(f"v{i}", ("vec", P(e), None), i % 3 != 0) for i, e in enumerate(prims_seq)]
     steps += [(f"w{i}", ("vec", P(e), 3), i % 3 == 0) for i, e in enumerate(prims_seq)]
     steps.append(("vp", ("vec", ("named", "Pix", []), None), True))
@@ -1312,6 +1367,12 @@ def directed_package(namespace="Dir"):
     # a flags value outside the declared bits is written as a number: next to a numeric case the union must be tagged
     steps.append(("ufi", ("union", False, [(None, ("named", "DF", [])), (None, P("int32"))]), True))
     steps.append(("ufs", ("union", True, [(None, ("named", "DF", [])), (None, P("string"))]), True))
+    # maps keyed by a type parameter: whether the JSON form is an object (string keys) or an array of pairs is only known per instantiation
+    steps.append(("lkS", ("named", "Lookup", [P("string"), P("int32")]), True))
+    steps.append(("lkI", ("named", "Lookup", [P("uint16"), P("string")]), False))
+    steps.append(("lkA", ("named", "Lookup", [("named", "StrKey", []), P("float64")]), True))
+    steps.append(("dS", ("named", "Dict", [P("string"), ("named", "Pix", [])]), False))
+    steps.append(("dI", ("named", "Dict", [P("int64"), P("bool")]), True))
     # enums / flags stored as the primitive their aliased base names: as steps, vector items, map values, array elements
     steps.append(("dea", ("named", "DEA", []), True))
     steps.append(("dfa", ("named", "DFA", []), False))
